@@ -602,6 +602,9 @@ impl Engine for DemoEngine {
                 }
             };
             ctx.oracle_event = !model.is_empty();
+            for c in &model {
+                ctx.state(0x1000 | match c { TChunk::Tick(_) => 0, TChunk::Snapshot(o) => 0x10 | (o.len().min(15) as u64), TChunk::Message(m) => 0x20 | (m.len().min(300) as u64 / 32) });
+            }
             ctx.t(model.len() as u64);
             ctx.logf(|| format!("typed history: {} chunks accepted, file {} bytes", model.len(), ref_disk.data.len()));
             let mut bytes = ref_disk.data.clone();
@@ -635,6 +638,14 @@ impl Engine for DemoEngine {
         };
         ctx.oracle_event = !model.is_empty();
         for c in &model {
+            let (k, n) = match c {
+                MChunk::Tick(_, kf) => (0u64, *kf as usize),
+                MChunk::Snapshot(d) => (1, d.len()),
+                MChunk::Delta(d) => (2, d.len()),
+                MChunk::Message(d) => (3, d.len()),
+            };
+            let b = match n { 0 => 0u64, 1..=29 => 1, 30 => 2, 31..=254 => 3, 255 | 256 => 4, 257..=4000 => 5, _ => 6 };
+            ctx.state((cfg.sha256 as u64) << 8 | k << 4 | b);
             match c {
                 MChunk::Tick(..) => ctx.count("probe_raw_tick"),
                 MChunk::Message(d) if d.len() % 4 == 0 => ctx.count("probe_raw_message"),
